@@ -118,7 +118,9 @@ func c15Domain(tier string) []gv {
 		d = append(d, gv{"float32", strconv.FormatFloat(float64(f), 'x', -1, 32)})
 	}
 	for _, s := range []string{"", "1", "1.5", "10", "9", "-1", "a", "ab", "abc", "b", "A", "0", "1e+06", "true", "<nil>", "0.1", "2.7", "07", "1.0",
-		"\u00e9"} {
+		"\u00e9",
+		// strings that look like dates / timestamps are still ordered byte by byte
+		"2024-01-01T01:30:00+02:00", "2024-01-01T00:15:00Z", "2024-01-01T00:20:00Z", "2024-01-01T00:15:00.5Z", "2024-01-01", "01/02/2024"} {
 		d = append(d, gv{"string", s})
 	}
 	// bytes that are not valid UTF-8 (hex-encoded: JSON would replace them): the order is by byte, not by decoded rune
